@@ -67,7 +67,7 @@ def strategy(cell, tier):
     el = gen.vec(("moderate",))
     return st.fixed_dictionaries({
         "elems": st.lists(el, min_size=12, max_size=12),
-        "zero": st.lists(st.sampled_from((False, False, False, True)), min_size=12, max_size=12),
+        "zero": st.lists(st.sampled_from((False, False, False, True, "az", "spatial", "zonly")), min_size=12, max_size=12),
         "zphi": st.floats(-3.0, 3.0), "zlong": st.floats(0.3, 2.5),
         "shape": st.sampled_from(range(len(NP_SHAPES))), "struct": st.sampled_from(range(len(AK_STRUCTS))),
     })
@@ -79,12 +79,20 @@ def _rows(cell, case):
     rows = []
     for e, z in zip(case["elems"], case["zero"]):
         if z:
+            # exact zero vector (True), or a vector whose azimuthal part ("az") / whole spatial part ("spatial") is exactly
+            # zero while a higher coordinate is not - expressed in the cell's stored system where that is representable
+            c = tuple(mpf(x) for x in e["c"][:d])
+            keep_long = z in ("az", "zonly") and d >= 3 and sa[1] == "z"
+            keep_time = z in ("az", "spatial") and d == 4
             r = []
             r += [0.0, 0.0] if sa[0] == "xy" else [0.0, case["zphi"]]
             if d >= 3:
-                r.append(0.0 if sa[1] == "z" else (case["zlong"] if sa[1] == "theta" else case["zlong"] - 1.2))
+                if keep_long:
+                    r.append(float(c[2]))
+                else:
+                    r.append(0.0 if sa[1] == "z" else (case["zlong"] if sa[1] == "theta" else case["zlong"] - 1.2))
             if d == 4:
-                r.append(0.0)
+                r.append(abs(float(c[3])) if keep_time else 0.0)
             rows.append(tuple(r))
         else:
             c = tuple(mpf(x) for x in e["c"][:d])
